@@ -242,6 +242,69 @@ def rule_r5(facts, col):
                         "rewind-for-repeat) decision is taken with samples still unemitted" % show(peel(n, through_try=False))[:80], {})
 
 
+def _end_of_data_fact(body, bb):
+    """a dominating `X == 0` edge where X is the result of Read::read or a counter field of self"""
+    from ..mir import self_field_path
+    for f in facts_at(body, bb):
+        xs = []
+        if f[0] == "IntEq" and f[2] == 0:
+            xs = [f[1]]
+        elif f[0] == "Eq":
+            if _const_is(f[2], 0):
+                xs = [f[1]]
+            elif _const_is(f[1], 0):
+                xs = [f[2]]
+        for x in xs:
+            p = peel(x)
+            if p.k == "call" and p.q == READ:
+                return "read() returned 0"
+            fp = self_field_path(peel(x, through_try=False))
+            if fp:
+                return "self.%s == 0" % ".".join(fp)
+    return None
+
+
+def rule_r6(facts, col):
+    """a file-backed source decides 'end of this repetition' only on read() == 0 or on its byte counter reaching 0 -
+    never on a short read (a BufReader/pipe/socket returns short reads in the middle of the data)"""
+    rb = repeat_blocks(facts)
+    for body in facts.impl_bodies(BLOCK_TRAIT, "work"):
+        if body.self_adt not in rb:
+            continue
+        if not list(body.calls_to(READ)):
+            continue
+        # again() sites: in work() itself, or in a helper of the same ADT (then judged at each of its call sites)
+        sites = []
+        for bb, t in body.calls_to(AGAIN):
+            sites.append((body, bb, None))
+        for bb, t in body.calls():
+            for q in Body.callee_qs(t):
+                for hb in facts.by_q.get(q, []):
+                    if hb.self_adt == body.self_adt and hb is not body and hb.kind != "closure" and list(hb.calls_to(AGAIN)):
+                        sites.append((body, bb, hb.q))
+        for b2, bb, via in sites:
+            key = "%s:again()%s@%s" % (body.q, (" via " + via.split("::")[-1]) if via else "", _short_guard(b2, bb))
+            why = _end_of_data_fact(b2, bb)
+            if why:
+                col.ok("C16.R6", key, b2.where(bb), "end of repetition decided on: %s" % why)
+            else:
+                col.bad("C16.R6", key, b2.where(bb),
+                        "the source counts a repetition as finished (Repeat::again()%s) on a path that is not behind `read() == 0` or "
+                        "`bytes-left == 0`: a short read in the middle of the file (BufReader refill, pipe) ends or rewinds the "
+                        "repetition early and the rest of the data is never emitted" % ((" through " + via) if via else ""), {})
+
+
+def _short_guard(body, bb):
+    best = None
+    for edge, f in facts_at_e(body, bb):
+        if best is None or body.dominates(best[0][0], edge[0]):
+            best = (edge, f)
+    if not best:
+        return "entry"
+    f = best[1]
+    return "%s" % f[0]
+
+
 def run(ctx):
     facts = ctx.facts("default")
     ctx.anchor("C16", REPEAT_ADT in facts.adts, "struct Repeat")
@@ -251,6 +314,8 @@ def run(ctx):
     rule_r3(facts, ctx)
     rule_r4(facts, ctx)
     rule_r5(facts, ctx)
+    rule_r6(facts, ctx)
+    ctx.floor("C16.R6", 2, "again() in FileSource::work (read()==0) and SigMFSource::work (left == 0)")
     ctx.floor("C16.R5", 2, "FileSource and SigMFSource read(2) staging buffers (TcpSource counted when present)")
     from .. import controls
     controls.expect(ctx, "C16.R2", rule_r2, "BadSource", "finite source that never asks done()")
